@@ -130,7 +130,12 @@ def guarded(oracle: OracleFn, u, tc, aval, route, tally, seconds: float = 5.0) -
         return [("hang", f"no result within {seconds}s")]
     if status == "memory":
         return [("memory", "MemoryError (address-space guard)")]
-    raise res
+    from .runner import HarnessError
+    if isinstance(res, HarnessError):
+        raise res
+    # an exception escaping the oracle comes from the code under test (the oracle's own
+    # bookkeeping is plain data handling): report it, do not crash the check
+    return [("raised", f"{type(res).__name__}: {res}"[:300])]
 
 
 def limit_memory(gb: float = 6.0) -> None:
